@@ -12,6 +12,9 @@ def check(ctx: Ctx) -> None:
     SP.r_unreachable_lock_raise(ctx, "R04.2")
     A.r_one_spawner_per_request(ctx, "R04.3", ("apply", "start"))
     S.r_spawner_registry_who(ctx, "R04.5")
+    # "... even if gather_and_close() is called after the request was accepted": the close must wait for every spawner
+    from . import close as CL
+    CL.r_gather_complete(ctx, "R04.7", ("gather_and_close",))
     from .elemtrack import r_spawner_kept
     r_spawner_kept(ctx, "R04.6")
     S.r_wiring(ctx, "R04.3w", {"GROUP", "FUNC", "ARGS", "KWARGS", "NUM"}, 10, "group/func/args/kwargs/num roles")
